@@ -213,6 +213,17 @@ def cases(rng, tier):
         out.append(make_case(rng, L, d, rng.choice(dts), rng.random() < 0.6, rng.random() < 0.35, rng.random() < 0.12,
                              Dmax=3 if d ** L <= 81 else 2))
     # edge cases
+    # magnitude regimes (implementation level only): the operator MPOs times 2^-30 (every average, block and effective operator scales with it)
+    for c in out:
+        if c['L'] >= 1 and rng.random() < 0.12:
+            k = rng.choice([-30, -44])
+            f = 2.0 ** k
+            site = rng.choice([0, -1])        # first tensor (left blocks tiny) or last tensor (right blocks tiny)
+            for key in ('op', 'rho'):
+                c['T'][key][site] = enc(dec(c['T'][key][site]) * f)
+            c['mag'] = k
+            if c['dtype'] == 'int':
+                c['dtype'] = 'real'        # the scaled tensors are not integer valued
     for c in out:
         if rng.random() < 0.2:
             c['layout'] = rng.randrange(1, 4)
@@ -439,6 +450,9 @@ def _osuffix(Ws, i):
     return S                                     # (Dw_i, d^(L-i), d^(L-i))
 
 
+_REL = [False]        # tolerances relative to the reference (magnitude regimes)
+
+
 def _eq(name, got, want, msgs):
     if got is None or isinstance(got, dict) and 'error' in got:
         msgs.append('%s: implementation raised %s' % (name, got))
@@ -447,12 +461,13 @@ def _eq(name, got, want, msgs):
     w = np.asarray(want)
     if tuple(g.shape) != tuple(w.shape):
         msgs.append('%s: shape %s but dense reference has %s' % (name, tuple(g.shape), tuple(w.shape)))
-    elif not np.allclose(g, w, rtol=0, atol=1e-9 * (1 + np.max(np.abs(w)) if w.size else 1)):
+    elif not np.allclose(g, w, rtol=0, atol=1e-9 * ((np.max(np.abs(w)) if _REL[0] else 1 + np.max(np.abs(w))) if w.size else 1)):
         msgs.append('%s: differs from the dense reference (max abs deviation %g)' % (name, float(np.max(np.abs(g - w)))))
 
 
 def prop(case, r):
     msgs = []
+    _REL[0] = bool(case.get('mag'))
     L, d = case['L'], case['d']
     if case['kind'] == 'mismatch':
         for k in ('vdot', 'oip', 'avg', 'dens', 'BR'):
@@ -575,6 +590,8 @@ def _opt_scalar(term, res):
 
 
 def coq(case, r):
+    if case.get('mag'):
+        return None        # magnitude regimes: implementation-level property only (the model runs on integer tensors)
     try:
         return _coq(case, r)
     except (ValueError, AssertionError, KeyError, IndexError, TypeError):
